@@ -94,6 +94,7 @@ type Clause struct {
 	Known    string // optional known-finding tag
 	Internal bool   // ensures over locals of the body: checked, but not assumed at call sites
 	Assumed  string // non-empty: postcondition assumed at call sites and NOT checked in the body (reason); listed in evidence
+	Site     int    // ensures: >= 0 restricts the clause to the return statement with that source-order ordinal
 }
 
 type LoopSpec struct {
@@ -876,7 +877,7 @@ func (p *parser) parseFuncKey() (string, error) {
 }
 
 func (p *parser) parseClauseExpr(kind string) (*Clause, error) {
-	c := &Clause{Kind: kind}
+	c := &Clause{Kind: kind, Site: -1}
 	// optional [tag,tag] and optional label "name:"
 	if p.isOp("[") {
 		p.adv()
@@ -960,9 +961,24 @@ func (p *parser) parseFuncContract() (*FuncContract, error) {
 			fc.Requires = append(fc.Requires, c)
 			curLoop = nil
 		case "ensures":
+			// "ensures site k ...": checked only at the k'th return statement in source order (k from 0); may mention
+			// locals of the body and is never assumed at call sites
+			site := -1
+			if p.isId("site") {
+				p.adv()
+				k, err := strconv.Atoi(p.adv().s)
+				if err != nil {
+					return nil, p.errf("return ordinal expected after site")
+				}
+				site = k
+			}
 			c, err := p.parseClauseExpr("ensures")
 			if err != nil {
 				return nil, err
+			}
+			c.Site = site
+			if site >= 0 {
+				c.Internal = true
 			}
 			fc.Ensures = append(fc.Ensures, c)
 			curLoop = nil
